@@ -1258,6 +1258,24 @@ static TypeInfo *parse_generic_type_args(Stage1Parser *p, const char *base_name)
 }
 
 /* Parse primary expression */
+static ASTNode *parse_primary(Stage1Parser *p);
+
+/* Operand of a unary operator. The recursion parse_primary -> parse_primary is
+ * counted by the same depth guard as parse_expression. */
+static ASTNode *parse_unary_operand(Stage1Parser *p) {
+    p->recursion_depth++;
+    if (p->recursion_depth > MAX_RECURSION_DEPTH) {
+        Token *tok = current_token(p);
+        parser_error(p, tok ? tok->line : 0, tok ? tok->column : 0, "Error at line %d, column %d: Expression recursion depth exceeded maximum (%d). Possible infinite recursion or extremely nested expression.\n",
+                tok ? tok->line : 0, tok ? tok->column : 0, MAX_RECURSION_DEPTH);
+        p->recursion_depth--;
+        return NULL;
+    }
+    ASTNode *operand = parse_primary(p);
+    p->recursion_depth--;
+    return operand;
+}
+
 static ASTNode *parse_primary(Stage1Parser *p) {
     Token *tok = current_token(p);
     if (!tok) {
@@ -1272,7 +1290,7 @@ static ASTNode *parse_primary(Stage1Parser *p) {
             int line = tok->line;
             int column = tok->column;
             advance(p);  /* consume 'not' */
-            ASTNode *operand = parse_primary(p);
+            ASTNode *operand = parse_unary_operand(p);
             if (!operand) return NULL;
             ASTNode *not_node = create_node(AST_PREFIX_OP, line, column);
             not_node->as.prefix_op.op = TOKEN_NOT;
@@ -1287,7 +1305,7 @@ static ASTNode *parse_primary(Stage1Parser *p) {
             int line = tok->line;
             int column = tok->column;
             advance(p);  /* consume '-' */
-            ASTNode *operand = parse_primary(p);
+            ASTNode *operand = parse_unary_operand(p);
             if (!operand) return NULL;
             ASTNode *neg_node = create_node(AST_PREFIX_OP, line, column);
             neg_node->as.prefix_op.op = TOKEN_MINUS;
